@@ -1084,6 +1084,97 @@ EMPTY_ROOTS = ("Relation::map", "Map::builder", "MapBuilder::new", "MapBuilder::
 
 
 
+def k7(rep, src):
+    """The cap itself: Relation::limit_col_contributions ranks the rows of a unit by one random draw and keeps the first `max`."""
+    rep.rule(
+        "K7",
+        "Relation::limit_col_contributions(column, max): the relation (with ONE random column added) is joined with ITSELF (`right` is `left.clone()` / the same value) on equality of `column` and "
+        "`left.random <= right.random`; the rank is count(..) per row of the left side (grouped by every input column); the result keeps the rows whose rank is `<= max` (the parameter, unchanged)",
+        floor=4,
+        necessary="the count is a rank only if both sides carry the same draw: with a second independent draw every row of a unit can have rank 1, so a unit is no longer limited to max groups while "
+        "noise and tau stay calibrated for that limit",
+    )
+    f = src.one_fn(name="limit_col_contributions", file="relation/rewriting.rs", self_ty="Relation")
+    key = "Relation::limit_col_contributions"
+    ps = [p["pat"]["name"] for p in f.params if not p.get("self") and p["pat"]["k"] == "ident"]
+    if len(ps) != 2:
+        raise Anchor("limit_col_contributions(self, column, max_contributions) signature changed")
+    colp, maxp = ps
+    lets = {l["pat"]["name"]: l["init"] for l in find(f.body, "let") if l["pat"]["k"] == "ident" and l.get("init") is not None}
+    lets.update({l["pat"]["pat"]["name"]: l["init"] for l in find(f.body, "let") if l["pat"]["k"] == "typed" and l["pat"]["pat"]["k"] == "ident" and l.get("init") is not None})
+
+    def resolve(e, depth=0):
+        while e["k"] in ("ref", "paren"):
+            e = e["e"]
+        if e["k"] == "mcall" and e["m"] in ("clone", "to_owned") and not e["args"]:
+            return resolve(e["recv"], depth)
+        if e["k"] == "path" and len(e["segs"]) == 1 and e["segs"][0] in lets and depth < 5:
+            return resolve(lets[e["segs"][0]], depth + 1)
+        return e
+
+    joins = [m for m in find(f.body, "mcall") if m["m"] == "build" and any(is_call_to(x, "Relation::join") for x in walk(m))]
+    if len(joins) != 1:
+        rep.undecidable("K7", key, "expected one Relation::join() .. .build() chain, found %d" % len(joins), f.where())
+        return
+    root, calls = chain_calls(joins[0])
+    byname = {}
+    for c in calls:
+        byname.setdefault(c["m"], []).append(c)
+    L, R = byname.get("left", []), byname.get("right", [])
+    same = False
+    if len(L) == 1 and len(R) == 1:
+        a, b = resolve(L[0]["args"][0]), resolve(R[0]["args"][0])
+        same = show(a, 0) == show(b, 0) and a is b or (path_of(strip_wrappers(L[0]["args"][0])) is not None and show(a, 0) == show(b, 0) and _same_origin(L[0]["args"][0], R[0]["args"][0], lets))
+    rep.instance("K7", key + "@self-join", {"left": show(L[0]["args"][0], 60) if L else None, "right": show(R[0]["args"][0], 60) if R else None, "same_relation": bool(same)})
+    if not same:
+        rep.violation("K7", key + "@self-join", "the two sides of the ranking join are not the same relation value (each would carry its own random draw): left = %s, right = %s" % (show(resolve(L[0]["args"][0]), 80) if L else "?", show(resolve(R[0]["args"][0]), 80) if R else "?"), f.where())
+    rnd = [c for c in find(f.body, "call") if is_call_to(c, "Expr::random")]
+    rep.instance("K7", key + "@draws", {"random_columns": len(rnd)})
+    if len(rnd) != 1:
+        rep.violation("K7", key + "@draws", "expected one Expr::random(..) column, found %d" % len(rnd), f.where())
+    # ON: eq(column, column) and lt_eq(random, random), left against right
+    conds = [a for nm in ("on", "and") for c in byname.get(nm, []) for a in c["args"]]
+    txt = " ".join(show(resolve(c), 0).replace(" ", "") for c in conds)
+    ok_eq = ("Expr::eq(Expr::qcol(Join::left_name(),%s),Expr::qcol(Join::right_name(),%s))" % (colp, colp)) in txt or ("Expr::eq(Expr::qcol(Join::right_name(),%s),Expr::qcol(Join::left_name(),%s))" % (colp, colp)) in txt
+    rc = [n for n, v in lets.items() if v["k"] == "lit" and v.get("t") == "str" and "RANDOM" in str(v.get("v", ""))]
+    rcol = rc[0] if rc else "random_col"
+    ok_rank = ("Expr::lt_eq(Expr::qcol(Join::left_name(),%s),Expr::qcol(Join::right_name(),%s))" % (rcol, rcol)) in txt or ("Expr::gt_eq(Expr::qcol(Join::right_name(),%s),Expr::qcol(Join::left_name(),%s))" % (rcol, rcol)) in txt
+    rep.instance("K7", key + "@on", {"conditions": txt[:240], "same_unit": ok_eq, "rank_order": ok_rank})
+    if not ok_eq or not ok_rank:
+        rep.violation("K7", key + "@on", "the ranking join is not ON left.%s = right.%s AND left.%s <= right.%s: %s" % (colp, colp, rcol, rcol, txt[:200]), f.where())
+    # the final filter: rank <= max
+    fl = [c for c in find(f.body, "mcall") if c["m"] == "filter" and c["args"] and is_call_to(c["args"][0], "Expr::lt_eq", "Expr::lt")]
+    okf = False
+    if len(fl) == 1:
+        a = fl[0]["args"][0]
+        okf = is_call_to(a, "Expr::lt_eq") and len(a["args"]) == 2 and is_call_to(a["args"][0], "Expr::col") and maxp in {y["segs"][0] for y in walk(a["args"][1]) if y["k"] == "path"} and not [y for y in walk(a["args"][1]) if y["k"] == "binary"]
+    rep.instance("K7", key + "@filter", {"filter": show(fl[0]["args"][0], 120) if fl else None, "rank_at_most_max": okf})
+    if not okf:
+        rep.violation("K7", key + "@filter", "the result is not filtered by `rank <= %s`: %s" % (maxp, show(fl[0]["args"][0], 120) if fl else "no filter"), f.where())
+
+
+def _same_origin(a, b, lets):
+    """`left` / `left.clone()` / a local initialised with `left.clone()`: the same relation value"""
+
+    def root(e, depth=0):
+        while e["k"] in ("ref", "paren"):
+            e = e["e"]
+        if e["k"] == "mcall" and e["m"] in ("clone", "to_owned") and not e["args"]:
+            return root(e["recv"], depth)
+        if e["k"] == "path" and len(e["segs"]) == 1:
+            nm = e["segs"][0]
+            init = lets.get(nm)
+            if init is not None and depth < 5:
+                r = root(init, depth + 1)
+                if r is not None and r != ("expr", id(init)):
+                    return r if isinstance(r, str) else nm
+            return nm
+        return ("expr", id(e))
+
+    ra, rb = root(a), root(b)
+    return isinstance(ra, str) and ra == rb
+
+
 def b3(rep, src, rid="B3"):
     """Map re-builders keep the clauses of the Map they start from."""
     rep.rule(
@@ -1331,5 +1422,6 @@ def run(rep):
     b1(rep, Mir(facts.mir_facts()), ["differential_privacy::", "relation::rewriting::"], rid="B1")
     b2(rep, src)
     b3(rep, src)
+    k7(rep, src)
     rep.assume("rustc accepts the tree (the syn facts are parsed from the same files the build uses)")
     rep.assume("method names unique / limit_col_contributions / add_gaussian_noise / filter_columns / filter_fields on a Relation resolve to relation/rewriting.rs (no other impl defines them for Relation)")
